@@ -187,6 +187,16 @@ fn gid(rng: &mut Rng, universe: u64) -> u32 {
 }
 
 fn c12(rng: &mut Rng, idx: usize) -> Case {
+    if idx == 3 {
+        // more than 65 535 terms (implementation against the harness oracle only): lookups, links,
+        // distances, set operations, common ancestors, sub-ontology and comparison on terms in arena
+        // slots beyond 65 535
+        let mut c = Case::new("big-arena");
+        c.op(format!("bigarena 70000 {}", rng.next()));
+        c.stat("big_arena_terms", 70000);
+        c.nontrivial = true;
+        return c;
+    }
     if idx % 10 == 9 {
         // ancestor queries of all pairs of terms of an ontology (8 variants)
         let mut c = Case::new("ancestor-queries");
@@ -233,6 +243,24 @@ fn c12(rng: &mut Rng, idx: usize) -> Case {
     c.op(format!("gfrom {} b {}", rng.pick(&hows), ids(b.clone())));
     c.op("gshow a".to_string());
     c.op("gshow b".to_string());
+    // sets whose smallest and largest id are a power of two (± 1) apart, through every constructor
+    // (word-sized bit masks, block-wise searches)
+    for _ in 0..2 {
+        let span = *rng.pick(&[15u32, 16, 17, 31, 32, 33, 63, 64, 65, 127, 128, 129, 255, 256]);
+        let base = gid(rng, universe).min(u32::MAX - 300);
+        let mut v = vec![base, base + span];
+        for _ in 0..rng.below(5) {
+            v.push(base + rng.below(u64::from(span) + 1) as u32);
+        }
+        rng.shuffle(&mut v);
+        for how in hows {
+            c.op(format!("gfrom {how} d {}", ids(v.clone())));
+            c.op("gshow d".to_string());
+            c.op(format!("ghas d {}", base + span));
+            c.op(format!("ghas d {}", base + span / 2));
+        }
+        c.stat("power_of_two_span_sets", 1);
+    }
     // insertion sequence with return values
     c.op("gnew s".to_string());
     let nins = rng.range(0, 45);
@@ -723,6 +751,15 @@ fn onto_case(rng: &mut Rng, prop: &str, tier: &str, idx: usize) -> Case {
     let max_terms = *rng.pick(&[4usize, 8, 15, 25, 40]);
     let (mut f, shape) = gen_facts(rng, &DagOpts { max_terms, with_roots, max_recs: 6 });
     c.stat(&format!("shape_{shape:?}"), 1);
+    let mut long_gene = false;
+    if path < 2 && prop == "C02" && with_roots && !f.recs[0].is_empty() && rng.chance(1, 5) {
+        // a gene symbol beyond the 255 bytes the file format holds, a two-byte character across
+        // byte 255: the round trip below keeps the record and all its links
+        let i = rng.below(f.recs[0].len() as u64) as usize;
+        f.recs[0][i].1 = if rng.chance(1, 2) { "é".repeat(128) } else { format!("{}é tail", "n".repeat(254)) };
+        long_gene = true;
+        c.stat("gene_symbols_beyond_255_bytes", 1);
+    }
     if path < 2 {
         // with rejected calls (absent terms) among the accepted ones: they leave no trace
         facts_to_prog(rng, &f, &ProgOpts { shuffle: true, failing_permille: 150, build_defaults: with_roots, slot: 0 }, &mut c);
@@ -757,7 +794,7 @@ fn onto_case(rng: &mut Rng, prop: &str, tier: &str, idx: usize) -> Case {
         "C02" => {
             c.op("oracle inherit 0".to_string());
             c.nontrivial = inh > 0;
-            if with_roots && rng.chance(1, 3) {
+            if with_roots && (long_gene || rng.chance(1, 3)) {
                 // construction path `from_bytes(as_bytes())` of the ontology just built
                 c.op("roundtrip 0 9".to_string());
                 c.op("dump 9".to_string());
@@ -870,7 +907,33 @@ fn c15(rng: &mut Rng, idx: usize) -> Case {
     // program A: failing and succeeding calls interleaved
     let mut r2 = rng.clone();
     facts_to_prog(rng, &f, &ProgOpts { shuffle: true, failing_permille: failing, build_defaults: with_roots, slot: 0 }, &mut c);
-    let nfail = c.stats.get("failing_add_parent").copied().unwrap_or(0) + c.stats.get("failing_annotate").copied().unwrap_or(0);
+    let mut nfail = c.stats.get("failing_add_parent").copied().unwrap_or(0) + c.stats.get("failing_annotate").copied().unwrap_or(0);
+    // patterns of rejected calls that a random interleaving rarely produces: the SAME rejected
+    // add_parent twice in a row; a rejected annotate_* for a record that is not registered yet,
+    // directly followed by the (valid) call that registers it
+    {
+        let used: Vec<u32> = f.terms.iter().map(|t| t.0).collect();
+        if let Some(i) = c.ops.iter().position(|o| o == "connect") {
+            let absent = gen_ids(rng, 1, &used)[0];
+            let present = *rng.pick(&used);
+            let (a, b) = if rng.chance(1, 2) { (present, absent) } else { (absent, present) };
+            c.ops.insert(i, format!("parent {a} {b}"));
+            c.ops.insert(i, format!("parent {a} {b}"));
+            nfail += 2;
+            c.stat("repeated_rejected_add_parent", 1);
+        }
+        for kind in KINDS {
+            let pfx_a = format!("ann {kind} ");
+            let pfx_b = format!("addrec {kind} ");
+            if let Some(i) = c.ops.iter().position(|o| o.starts_with(&pfx_a) || o.starts_with(&pfx_b)) {
+                let toks: Vec<String> = c.ops[i].split(' ').map(|x| x.to_string()).collect();
+                let absent = gen_ids(rng, 1, &used)[0];
+                c.ops.insert(i, format!("ann {kind} {} {} {absent}", toks[2], toks[3]));
+                nfail += 1;
+                c.stat("rejected_annotate_before_registration", 1);
+            }
+        }
+    }
     c.op("dump 0".to_string());
     c.op("oracle closed 0".to_string());
     // program B: the successful calls alone (same fact set, no failing calls)
@@ -989,6 +1052,16 @@ fn c16(rng: &mut Rng, tier: &str, idx: usize) -> Case {
 }
 
 fn c19(rng: &mut Rng, idx: usize) -> Case {
+    if idx == 3 {
+        // more than 65 535 terms (implementation against the harness oracle only): lookups, links,
+        // distances, set operations, common ancestors, sub-ontology and comparison on terms in arena
+        // slots beyond 65 535
+        let mut c = Case::new("big-arena");
+        c.op(format!("bigarena 70000 {}", rng.next()));
+        c.stat("big_arena_terms", 70000);
+        c.nontrivial = true;
+        return c;
+    }
     if idx % 20 == 9 {
         // terms with more than 30 ancestors (ids in random order) below modifier roots and categories
         let mut c = Case::new("defaults-deep");
